@@ -316,9 +316,209 @@ def runCtor (r : Report) (s : Section) : Report := Id.run do
     | _ => r := r.mismatch s.idx l.idx "bad-op" (joinSp l.op)
   return r
 
+
+/-! ### mode=sched: the harness is the run loop (see the harness file); clients: the wheel's public API with
+callbacks that stay inside the callback (hold / release), and the real Cache with WithLimit / Get / Take. -/
+
+structure SchedSt where
+  cache  : CacheL
+  armed  : List Nat := []
+  active : List Nat := []
+  acc    : List (Nat × Nat) := []
+  late   : List String := []    -- requests of the callbacks of an `ltick`, received during the next operation
+
+def rqTok : Call → String
+  | .setTimer (some k) v d => s!"set:{k}:{v}:{d}"
+  | .moveTimer (some k) d => s!"move:{k}:{d}"
+  | .removeTimer (some k) => s!"remove:{k}"
+  | .drain => "drain"
+  | _ => "?"
+
+def insertStr (x : String) : List String → List String
+  | [] => [x]
+  | y :: ys => if x ≤ y then x :: y :: ys else y :: insertStr x ys
+
+inductive SOp where
+  | hold (k : Nat)
+  | release (k : Nat)
+  | boom (k : Nat)      -- the next callback of k panics: recovered by RunSafe / GoSafe / the task runner, nothing else changes
+  | calls (cs : List Call) (res : List String) (sortRq : Bool) (cache' : CacheL)
+  | ltick
+
+def parseFetch (s : String) : Option (Fetch × String) :=
+  if s = "ok" then some (.ok, "fresh") else if s = "err" ∨ s = "tnil" then some (.err, "err")
+  else if s = "panic" ∨ s = "panicerr" then some (.noReturn, "panic")
+  else if s = "goexit" then some (.noReturn, "goexit") else none
+
+def parseSched (isCache : Bool) (c : CacheL) : List String → Option SOp
+  | ["hold", k] => k.toNat?.map .hold
+  | ["release", k] => k.toNat?.map .release
+  | ["boom", k, kind] => if kind = "err" ∨ kind = "str" then k.toNat?.map .boom else none
+  | ["tick"] => some (.calls [.tick] [] true c)
+  | ["ltick"] => some .ltick
+  | op =>
+    if isCache then
+      match op with
+      | ["cset", k, v, e] => do
+        let x := c.setWithExpire (← k.toNat?) (← v.toNat?) (← e.toInt?)
+        pure (.calls x.2 [] false x.1)
+      | ["cput", k, v] => do
+        let x := c.set (← k.toNat?) (← v.toNat?)
+        pure (.calls x.2 [] false x.1)
+      | ["cdel", k] => do
+        let x := c.del (← k.toNat?)
+        pure (.calls x.2 [] false x.1)
+      | ["cget", k] => do
+        let x := c.doGet (← k.toNat?)
+        pure (.calls x.2.1 [match x.2.2 with | some v => s!"get={v}" | none => "get=miss"] false x.1)
+      | ["ctake", k, v, f] => do
+        let k ← k.toNat?
+        let fo ← parseFetch f
+        let x := c.take k (← v.toNat?) fo.1
+        let tok := match c.lookup k with
+          | some v => s!"take=hit:{v}"
+          | none => match x.2.2 with
+            | some v => s!"take=fresh:{v}"
+            | none => "take=" ++ fo.2
+        pure (.calls x.2.1 [tok] false x.1)
+      | _ => none
+    else
+      match parseCall op with
+      | some .stop => none
+      | some .drain => some (.calls [.drain] [] true c)
+      | some call => some (.calls [call] [] false c)
+      | none => none
+
+/-- one line of a sched section over the wheel model or the timer table: new state and the observation. -/
+def schedCalls {T : Type} (ts : TStep T) (isCache : Bool) (a : ApiG T) (st : SchedSt)
+    (cs : List Call) (res : List String) (sortRq : Bool) (cache' : CacheL) : ApiG T × SchedSt × String × List (Nat × Nat) :=
+  let i := ApiG.issue ts 0 a cs
+  let cb : Cb CacheL := if isCache then cacheLCb else fun c _ _ => (c, [])
+  let q := ApiG.settle ts cb 1000000 i.1 cache' i.2.1
+  let errs := if isCache then [] else i.2.2.filterMap fun x =>
+    match x.2.2 with
+    | .errArgument => some "err=argument"
+    | .errClosed => some "err=closed"
+    | _ => none
+  let okTok (x : Inner) : Option String :=
+    if x.2.2 = .ok then (match x.2.1 with | .tick => none | c => some (rqTok c)) else none
+  let rq := st.late ++ i.2.2.filterMap okTok ++ q.inner.filterMap okTok
+  let rq := if sortRq then rq.foldr insertStr [] else rq
+  let armedFired := st.armed.filter fun k => q.fired.any (·.1 = k)
+  let active := st.active ++ armedFired
+  let acc := st.acc ++ q.fired
+  let out := if active.isEmpty then (if acc.isEmpty then [] else [canon acc]) else ["held"]
+  let has := if isCache then
+      ["has=" ++ (if q.cb.data.isEmpty then "-" else ",".intercalate (((q.cb.data.map (·.1)).foldr insertNat []).map toString))]
+    else []
+  let fuel := if q.left.isEmpty then [] else ["FUEL"]
+  let toks := res ++ errs ++ (if rq.isEmpty then [] else ["rq=" ++ ",".intercalate rq]) ++ out ++ has ++ fuel
+  (q.api, { cache := q.cb, armed := st.armed.filter (fun k => !q.fired.any (·.1 = k)), active := active,
+            acc := if active.isEmpty then [] else acc, late := [] },
+   (if toks.isEmpty then "-" else joinSp toks), q.fired)
+
+def schedStep {T : Type} (ts : TStep T) (isCache : Bool) (a : ApiG T) (st : SchedSt) :
+    SOp → ApiG T × SchedSt × String × List (Nat × Nat)
+  | .hold k =>
+    if st.active.isEmpty then (a, { st with armed := if st.armed.contains k then st.armed else st.armed ++ [k] }, "armed", [])
+    else (a, st, "busy", [])
+  | .boom _ => (a, st, "armed", [])
+  | .release k =>
+    schedCalls ts isCache a { st with armed := st.armed.filter (· ≠ k), active := st.active.filter (· ≠ k) } [] [] true st.cache
+  | .calls cs res sortRq cache' => schedCalls ts isCache a st cs res sortRq cache'
+  | .ltick =>
+    -- the tick and its callbacks as in `tick`; the callbacks' requests are printed by the next operation, first
+    -- (they were pending before it started), in the order the callbacks issued them
+    let r := schedCalls ts isCache a st [.tick] [] true st.cache
+    let q := ApiG.settle ts (if isCache then cacheLCb else fun c _ _ => (c, [])) 1000000 (ApiG.issue ts 0 a [.tick]).1 st.cache
+      (ApiG.issue ts 0 a [.tick]).2.1
+    let late := q.inner.filterMap fun x => if x.2.2 = .ok then some (rqTok x.2.1) else none
+    (r.1, { r.2.1 with late := st.late ++ late, acc := [] }, joinSp ("lazy" :: (if r.2.2.2.isEmpty then [] else [canon r.2.2.2])), r.2.2.2)
+
+def schedCover (isCache : Bool) (st : SchedSt) (op : List String) (sop : SOp) (fired : List (Nat × Nat))
+    (after : SchedSt) (lastEvicted : Option Nat) : List String :=
+  let evicts (cs : List Call) : Bool := match cs with
+    | .removeTimer _ :: .setTimer _ _ _ :: _ => true
+    | _ => false
+  (match sop with
+   | .hold _ => [if st.active.isEmpty then "sched-hold-armed" else "sched-hold-while-held"]
+   | .boom _ => ["sched-callback-panics-" ++ op.getD 2 ""]
+   | .ltick => ["sched-lazy-tick-replay-only"]
+   | .release k =>
+     (if st.active.contains k then ["sched-release-held"] else if st.armed.contains k then ["sched-release-armed-not-reached"] else ["sched-release-idle"]) ++
+     (if st.active.contains k ∧ after.active.isEmpty ∧ st.acc.length ≥ 2 then ["sched-release-prints-2+"] else [])
+   | .calls cs _ _ _ =>
+     (if ¬ st.active.isEmpty then
+        ["sched-op-while-callback-held"] ++
+        (if op = ["tick"] ∧ fired.length ≥ 1 then ["sched-tick-fires-while-held"] else []) ++
+        (if op = ["tick"] ∧ fired.length ≥ 2 then ["sched-tick-fires-2+-while-held"] else []) ++
+        (if op = ["drain"] ∧ fired.length ≥ 1 then ["sched-drain-while-held"] else [])
+      else []) ++
+     (if st.active.isEmpty ∧ ¬ after.active.isEmpty then
+        [if op = ["drain"] then "sched-drain-callback-held" else "sched-tick-callback-held"] ++
+        (if fired.length ≥ 2 then ["sched-held-in-batch-of-2+"] else [])
+      else []) ++
+     (if after.active.length ≥ 8 then ["sched-held-8+-drain-workers-full"] else []) ++
+     (if isCache then
+        (if evicts cs then ["cache-lru-evicts-on-" ++ op.headD ""] else []) ++
+        (match cs, lastEvicted with
+         | [.setTimer (some k) _ _], some e => if k = e then ["cache-evicted-key-set-again-at-once"] else []
+         | .removeTimer _ :: .setTimer (some k) _ _ :: _, some e => if k = e then ["cache-evicted-key-set-again-at-once"] else []
+         | _, _ => []) ++
+        (match cs with
+         | [.removeTimer _, .removeTimer _] => ["cache-del-listed-key-two-removes"]
+         | [.removeTimer _] => ["cache-del-one-remove"]
+         | _ => []) ++
+        (if op.headD "" = "cget" ∨ op.headD "" = "ctake" then
+           [op.headD "" ++ (if (st.cache.lookup ((op.getD 1 "").toNat?.getD 0)).isSome then "-hit" else if op.headD "" = "cget" then "-miss" else "-miss-fetch-" ++ op.getD 3 "")] else []) ++
+        (if op = ["tick"] ∧ fired.length ≥ 1 then [if st.cache.limit = 0 then "cache-expiry-no-limit" else "cache-expiry-with-limit"] else [])
+      else
+        (if cs.any (fun c => match c with | .setTimer none _ _ | .moveTimer none _ | .removeTimer none => true | _ => false) then ["sched-api-nil-key"] else [])))
+
+def runSched (r : Report) (s : Section) : Report := Id.run do
+  let isCache := kvStr s.cfg "client" "wheel" = "cache"
+  let n := kvNat s.cfg "n" 1
+  let interval := kvNat s.cfg "interval" 1
+  let limit := (kvStr s.cfg "limit" "0").toInt?.getD 0
+  let hasLimitOpt := (kvStr s.cfg "limit" "absent") ≠ "absent"
+  let c0 := CacheL.init limit ((kvStr s.cfg "expire" "0").toInt?.getD 0)
+  let mut a : Api := Api.init interval n
+  let mut sp : Spec.Api := Spec.Api.init interval
+  let mut st : SchedSt := { cache := c0 }
+  let mut stS : SchedSt := { cache := c0 }
+  let mut lastEv : Option Nat := none
+  let pri := (kvStr s.cfg "pri" "").splitOn ","
+  let mut r := r.addCover (if isCache then "mode-sched-cache" else "mode-sched-wheel")
+  if isCache then r := r.addCover (if limit > 0 then s!"cache-limit-{limit}" else if limit < 0 then "cache-WithLimit-negative"
+    else if hasLimitOpt then "cache-WithLimit-0" else "cache-no-WithLimit")
+  if isCache ∧ kvStr s.cfg "name" "" ≠ "" then r := r.addCover "cache-WithName"
+  r := r.addCover (if pri.idxOf "set" < pri.idxOf "remove" then "sched-pri-set-before-remove" else "sched-pri-remove-before-set")
+  for l in s.lines do
+    match parseSched isCache st.cache l.op, parseSched isCache stS.cache l.op with
+    | some sop, some sopS =>
+      r := { r with ops := r.ops + 1 }
+      let impl := joinSp l.obs
+      let (a', st', m, fired) := schedStep step isCache a st sop
+      let (sp', stS', sm, _) := schedStep Spec.step isCache sp stS sopS
+      for cv in schedCover isCache st l.op sop fired st' lastEv do r := r.addCover cv
+      match sop with
+      | .calls (.removeTimer (some e) :: .setTimer _ _ _ :: _) _ _ _ => lastEv := some e
+      | .calls _ _ _ _ => if l.op ≠ ["tick"] then lastEv := none
+      | _ => pure ()
+      if fired.length > 0 then r := r.addCover "fired" fired.length
+      if m ≠ impl then r := r.mismatch s.idx l.idx m impl
+      if sm ≠ impl then r := r.violation s.idx l.idx s!"spec=[{sm}] impl=[{impl}] op=[{joinSp l.op}]"
+      a := a'
+      sp := sp'
+      st := st'
+      stS := stS'
+    | _, _ => r := r.mismatch s.idx l.idx "bad-op" (joinSp l.op)
+  return r
+
 def runSection (r : Report) (s : Section) : Report := Id.run do
   let mode := kvStr s.cfg "mode" "api"
   if mode = "ctor" then return runCtor (r.addCover "mode-ctor") s
+  if mode = "sched" then return runSched r s
   let n := kvNat s.cfg "n" 1
   let interval := kvNat s.cfg "interval" 1
   let wb := mode = "wb"
